@@ -30,6 +30,7 @@ REGISTRY = {
     'atom':     lambda repo, sd, canary=False: atom.build(repo, sd, canary=canary),
     'classes':  lambda repo, sd, canary=False: classes.build(repo, sd, canary=canary),
     'stage1':   lambda repo, sd, canary=False: classes.build_stage1(repo, sd, canary=canary),
+    'exprfrom': lambda repo, sd, canary=False: elim.build_whole(repo, sd, canary=canary),
     'trie':     lambda repo, sd, canary=False: dfa.build_trie(repo, sd, canary=canary),
     'wasm':     lambda repo, sd, canary=False: bindings.build_wasm(repo, sd, canary=canary),
     'python':   lambda repo, sd, canary=False: bindings.build_python(repo, sd, canary=canary),
@@ -37,13 +38,13 @@ REGISTRY = {
 }
 # units whose obligations carry a property (an obligation counts for a property only if its clause is tagged with it)
 PROP_UNITS = {
-    'C01': ['expr', 'elim', 'matrix', 'regexp', 'caseconv', 'split', 'escaper', 'rep', 'dfa', 'dfa_kf', 'trie', 'render', 'format', 'nested', 'charcount', 'minimize', 'atom'],
-    'C02': ['expr', 'elim', 'matrix', 'regexp', 'dfa', 'minimize', 'gates', 'render', 'format', 'charcount', 'charclass'],
+    'C01': ['expr', 'elim', 'matrix', 'regexp', 'caseconv', 'split', 'escaper', 'rep', 'dfa', 'dfa_kf', 'trie', 'render', 'format', 'nested', 'charcount', 'minimize', 'atom', 'exprfrom'],
+    'C02': ['expr', 'elim', 'matrix', 'regexp', 'dfa', 'minimize', 'gates', 'render', 'format', 'charcount', 'charclass', 'exprfrom'],
     'C03': ['classify', 'gates', 'trie', 'atom', 'classes', 'stage1'],
     'C04': ['caseconv', 'regexp', 'render', 'builder'],
     'C05': ['trie', 'render', 'rep', 'splice', 'repeats', 'charcount', 'minimize', 'atom', 'stage1'],
     'C06': ['render', 'format', 'trie', 'rep', 'nested', 'indent'],
-    'C07': ['expr', 'elim', 'matrix', 'regexp', 'builder', 'split', 'escaper', 'caseconv', 'rep', 'splice', 'gates', 'render', 'format', 'order', 'dfa', 'minimize', 'trie', 'cli', 'escape', 'classify', 'nested', 'indent', 'charcount', 'repeats', 'charclass', 'atom', 'classes', 'stage1'],
+    'C07': ['expr', 'elim', 'matrix', 'regexp', 'builder', 'split', 'escaper', 'caseconv', 'rep', 'splice', 'gates', 'render', 'format', 'order', 'dfa', 'minimize', 'trie', 'cli', 'escape', 'classify', 'nested', 'indent', 'charcount', 'repeats', 'charclass', 'atom', 'classes', 'stage1', 'exprfrom'],
     'C08': ['render', 'expr', 'regexp', 'format', 'indent'],
     'C09': ['tables', 'classify', 'classes'],
     'C10': ['builder', 'regexp', 'gates', 'order', 'dfa'],
@@ -52,7 +53,7 @@ PROP_UNITS = {
     'C13': ['rep', 'splice', 'repeats', 'builder', 'render', 'trie', 'atom', 'stage1'],
     'C14': ['python'],
     'C15': ['render', 'indent'],
-    'C16': ['expr', 'elim', 'matrix', 'regexp', 'dfa', 'dfa_kf', 'minimize', 'trie', 'render', 'format', 'charcount', 'repeats', 'charclass', 'stage1'],
+    'C16': ['expr', 'elim', 'matrix', 'regexp', 'dfa', 'dfa_kf', 'minimize', 'trie', 'render', 'format', 'charcount', 'repeats', 'charclass', 'stage1', 'exprfrom'],
     'C17': ['wasm'],
 }
 # dfa_kf holds exactly the known-finding clause (its canary would be redundant with dfa's); tables has no function with a context
